@@ -174,6 +174,16 @@ fn test(c: &TuiCase, obs: &mut Obs) -> CheckResult {
         }
         Err(f) => return Err(f),
     }
+    // the privacy ttl asked for on the command line is the one in force when the session starts,
+    // whatever the other options (the frames are judged against the value in force)
+    vensure!(
+        s.app.tui_config.privacy_max_ttl == c.ui.privacy,
+        "privacy-not-in-force",
+        "--tui-privacy-max-ttl {:?} was asked for (first-ttl of the traces {:?}), in force at start: {:?}",
+        c.ui.privacy,
+        c.traces.iter().map(|t| t.cfg.first_ttl).collect::<Vec<_>>(),
+        s.app.tui_config.privacy_max_ttl
+    );
     check_frame(&s, "initial frame", obs)?;
     let mut privacy_steps = 0usize;
     let mut frames_hidden = 0usize;
